@@ -70,7 +70,7 @@ def check(model, tier):
 
     # ---- R07.1
     run.rule("R07.1", "the Processor changes the input tree only by attach_payload inside the Materialization arm; transfers get their payload through reapply(new_target, payload)", 3)
-    payload.r10_4_who_may_attach(ctx, rule="R07.1")
+    payload.r10_4_who_may_attach(ctx, rule="R07.1w")
     for i, p in enumerate(paths):
         it = case_index(p, "Transfer", orig)
         if it < 0 or p.outcome != "return":
